@@ -26,12 +26,13 @@ strategy = c01.strategy
 def _modules(case):
     from pytorch_wavelets import (DWT1DForward, DWT1DInverse, DWTForward,
                                   DWTInverse)
+    msp = case.get('mode_spelling', case['mode'])
     with dwtu.default_dtype(dwtu.tdt(case['dtype'])):
         if case['dim'] == 1:
-            return (DWT1DForward(J=case['J'], wave=c01.wave_arg(case), mode=case['mode']),
-                    DWT1DInverse(wave=c01.wave_arg(case, 'rec'), mode=case['mode']))
-        return (DWTForward(J=case['J'], wave=c01.wave_arg(case), mode=case['mode']),
-                DWTInverse(wave=c01.wave_arg(case, 'rec'), mode=case['mode']))
+            return (DWT1DForward(J=case['J'], wave=c01.wave_arg(case), mode=msp),
+                    DWT1DInverse(wave=c01.wave_arg(case, 'rec'), mode=msp))
+        return (DWTForward(J=case['J'], wave=c01.wave_arg(case), mode=msp),
+                DWTInverse(wave=c01.wave_arg(case, 'rec'), mode=msp))
 
 
 def run_case(case):
